@@ -1833,6 +1833,10 @@ pub fn run_solo(prop: &str, sb: &Sandbox, pre: &Tree, mut src: Src, stats: &mut 
         if let Some(c) = canon_virt(sb, &d) {
             if before.nodes.get(&c).map(|n| n.kind == Kind::Dir).unwrap_or(false) {
                 roots.push(tree::join(&c, tree::base(&s_loc)));
+                // a destination that is a link to a directory: the copy may merge into that directory
+                if !roots.contains(&c) {
+                    roots.push(c);
+                }
             }
         }
         if roots.is_empty() {
